@@ -10,6 +10,7 @@ import YashModel.Common.Proto
 import YashModel.Pipe.Model
 import YashModel.Pipe.Spec
 import YashModel.Pipe.Fds
+import YashModel.Pipe.File
 open YashModel YashModel.Pipe YashModel.Proto
 
 abbrev Byte := Nat
@@ -377,11 +378,91 @@ def runFd (ws : List String) : String :=
     | none => "stuck"
   obs ++ "\t" ++ (if ok then "ok" else "FAIL:child-not-connected")
 
+/-! ### here-documents (`hd` cases) -/
+
+def asciiTab : List Char := "abcdefghijklmnopqrstuvwxyzABC 0123456789.,:;+=_/[]".toList
+
+/-- character `i` of a generated text of class `cls` (0 ASCII, 1/2/3 = 2/3/4-byte characters, 4 mixed) -/
+def hdChar (cls i : Nat) : Char :=
+  let c := if cls = 4 then i % 4 else cls
+  match c with
+  | 1 => Char.ofNat (0xC0 + (i * 5) % 0x80)
+  | 2 => Char.ofNat (0x6771 + (i * 3) % 200)
+  | 3 => Char.ofNat (0x1F600 + i % 60)
+  | _ => asciiTab.getD ((i * 7 + i / 13) % 50) 'a'
+
+/-- here-document body of `n` characters in lines of `ll` characters (the last one a newline) -/
+def hdBody (n cls ll : Nat) : List Char :=
+  (List.range n).map fun i => if i + 1 = n ∨ i % ll = ll - 1 then '\n' else hdChar cls i
+
+def hdValue (vn cls : Nat) : List Char := (List.range vn).map fun i => hdChar cls (i + 1000)
+
+def hashU8 (bs : List UInt8) : Nat := bs.foldl (fun h b => (h * 31 + b.toNat + 1) % 1000003) 7
+
+def showBytes (x : List UInt8) : String :=
+  s!"len={x.length} sum={hashU8 x} head={bytesToHex (x.take 8)} tail={bytesToHex (x.drop (x.length - 8))}"
+
+def firstLine (b : List UInt8) : List UInt8 :=
+  match b.span (· != 10) with
+  | (l, []) => l
+  | (l, _ :: _) => l ++ [10]
+
+/-- what the reader writes to /out, given the bytes it found on its standard input -/
+def readerOut (rd : String) (k : Nat) (b : List UInt8) : List UInt8 :=
+  match rd with
+  | "mix" => if b.isEmpty then [10] else b
+  | "stop" => if b.isEmpty then [10] else firstLine b
+  | "head" => b.take k
+  | _ => b
+
+def runHd (ws : List String) : String :=
+  let n := kvNat ws "n"
+  let cls := kvNat ws "cls"
+  let ll := max 1 (kvNat ws "ll")
+  let quoted := kvNat ws "q" != 0
+  let exp := if n = 0 then 0 else kvNat ws "exp"
+  let rd := (kv ws "rd").getD "cat"
+  let k := kvNat ws "k"
+  let body := hdBody n cls ll
+  let value := hdValue (kvNat ws "vn") cls
+  let lit1 := body.take (n / 2)
+  let lit2 := body.drop (n / 2)
+  -- the expanded body: what `fill_content` is given
+  let expanded : List Char :=
+    match exp, quoted with
+    | 0, _ => body
+    | 1, true => lit1 ++ "${v}".toList ++ lit2
+    | _, true => lit1 ++ "$(hgen)".toList ++ lit2
+    | _, false => lit1 ++ value ++ lit2
+  let bytes := utf8 expanded
+  let bytes2 := utf8 (hdBody (n * 3 / 4 + 5) ((cls + 1) % 5) ll)
+  let multi := kvNat ws "multi" != 0
+  -- Impl model: temporary file, write, rewind, then the reader's `read` calls
+  let chunks (len : Nat) : List Nat :=
+    match rd with
+    | "cat" => List.replicate (len / 1024 + 2) 1024
+    | "head" => [k]
+    | "stop" => List.replicate (firstLine bytes).length 1
+    | _ => List.replicate (len + 1) 1
+  let model : Option (List UInt8) := do
+    let o ← heredocFill bytes
+    let got := (o.reads (chunks bytes.length)).1
+    let out := readerOut rd k got
+    if multi then
+      let o2 ← heredocFill bytes2
+      pure (out ++ (o2.reads (List.replicate (bytes2.length / 1024 + 2) 1024)).1)
+    else pure out
+  let spec := readerOut rd k bytes ++ (if multi then bytes2 else [])
+  (match model with
+    | some x => showBytes x
+    | none => "seek-error") ++ "\t=" ++ showBytes spec
+
 def runLine (line : String) : String :=
   match words line with
   | "xfer" :: ws => runXfer ws
   | "sh" :: ws => runSh ws
   | "fd" :: ws => runFd ws
+  | "hd" :: ws => runHd ws
   | _ => runOps line
 
 def main : IO Unit := mainLoop runLine
